@@ -15,43 +15,74 @@ struct RawCVec<T> {
     reserve_fn: extern "C" fn(&mut RawCVec<T>, usize) -> usize,
 }
 
-static ORIG_RESERVE: AtomicUsize = AtomicUsize::new(0);
-static ORIG_DROP: AtomicUsize = AtomicUsize::new(0);
+// per handle slot: a vector created in another module carries that module's functions
+const ZERO: AtomicUsize = AtomicUsize::new(0);
+static ORIG_RESERVE: [AtomicUsize; 4] = [ZERO; 4];
+static ORIG_DROP: [AtomicUsize; 4] = [ZERO; 4];
 static RESERVE_CALLS: AtomicUsize = AtomicUsize::new(0);
 static DROP_CALLS: AtomicUsize = AtomicUsize::new(0);
 static DROP_CAP_MISMATCH: AtomicUsize = AtomicUsize::new(0);
 static EXPECT_DROP_CAP: AtomicUsize = AtomicUsize::new(usize::MAX);
 
-extern "C" fn reserve_tramp<T>(v: &mut RawCVec<T>, n: usize) -> usize {
+extern "C" fn reserve_tramp<T, const S: usize>(v: &mut RawCVec<T>, n: usize) -> usize {
     RESERVE_CALLS.fetch_add(1, SeqCst);
     let f: extern "C" fn(&mut RawCVec<T>, usize) -> usize =
-        unsafe { std::mem::transmute(ORIG_RESERVE.load(SeqCst)) };
+        unsafe { std::mem::transmute(ORIG_RESERVE[S].load(SeqCst)) };
     f(v, n)
 }
 
-unsafe extern "C" fn drop_tramp<T>(data: *mut T, len: usize, cap: usize) {
+unsafe extern "C" fn drop_tramp<T, const S: usize>(data: *mut T, len: usize, cap: usize) {
     DROP_CALLS.fetch_add(1, SeqCst);
     let e = EXPECT_DROP_CAP.load(SeqCst);
     if e != usize::MAX && e != cap {
         DROP_CAP_MISMATCH.fetch_add(1, SeqCst);
     }
-    let f: unsafe extern "C" fn(*mut T, usize, usize) = std::mem::transmute(ORIG_DROP.load(SeqCst));
+    let f: unsafe extern "C" fn(*mut T, usize, usize) = std::mem::transmute(ORIG_DROP[S].load(SeqCst));
     f(data, len, cap)
 }
 
 /// Replace the two stored functions of a freshly created vector by counting trampolines.
-fn interpose<T>(v: &mut CVec<T>) {
+fn interpose<T>(v: &mut CVec<T>, slot: usize) {
     assert_eq!(
         std::mem::size_of::<CVec<T>>(),
         std::mem::size_of::<RawCVec<T>>()
     );
     let raw: &mut RawCVec<T> = unsafe { &mut *(v as *mut CVec<T> as *mut RawCVec<T>) };
-    ORIG_RESERVE.store(raw.reserve_fn as usize, SeqCst);
-    raw.reserve_fn = reserve_tramp::<T>;
+    ORIG_RESERVE[slot].store(raw.reserve_fn as usize, SeqCst);
+    raw.reserve_fn = match slot {
+        0 => reserve_tramp::<T, 0>,
+        1 => reserve_tramp::<T, 1>,
+        2 => reserve_tramp::<T, 2>,
+        _ => reserve_tramp::<T, 3>,
+    };
     if let Some(d) = raw.drop_fn {
-        ORIG_DROP.store(d as usize, SeqCst);
-        raw.drop_fn = Some(drop_tramp::<T>);
+        ORIG_DROP[slot].store(d as usize, SeqCst);
+        raw.drop_fn = Some(match slot {
+            0 => drop_tramp::<T, 0>,
+            1 => drop_tramp::<T, 1>,
+            2 => drop_tramp::<T, 2>,
+            _ => drop_tramp::<T, 3>,
+        });
     }
+}
+
+/// C05: when set, vectors are created by the plugin (`xp_vec_u64`), so the buffer belongs to the
+/// plugin's allocator and every growth / free must go through the functions stored in the vector.
+pub static PLUGIN_VEC: std::sync::Mutex<Option<(libloading::Library, usize)>> = std::sync::Mutex::new(None);
+fn plugin_vec_u64(n: usize, cap: usize, first: u64) -> Option<CVec<u64>> {
+    let g = PLUGIN_VEC.lock().unwrap();
+    g.as_ref().map(|(_, f)| {
+        let f: unsafe extern "C" fn(usize, usize, u64) -> CVec<u64> = unsafe { std::mem::transmute(*f) };
+        unsafe { f(n, cap, first) }
+    })
+}
+fn plugin_stats() -> Option<(usize, usize)> {
+    let g = PLUGIN_VEC.lock().unwrap();
+    g.as_ref().map(|(lib, _)| unsafe {
+        let live: libloading::Symbol<unsafe extern "C" fn() -> usize> = lib.get(b"xp_ledger_live").unwrap();
+        let an: libloading::Symbol<unsafe extern "C" fn() -> usize> = lib.get(b"xp_ledger_anoms").unwrap();
+        (live(), an())
+    })
 }
 
 pub trait Elem: Sized + Clone {
@@ -102,6 +133,8 @@ impl Elem for Zst {
     }
 }
 
+static PLUGIN_BASE: std::sync::Mutex<(usize, usize)> = std::sync::Mutex::new((0, 0));
+
 struct World<T: Elem> {
     vecs: Vec<Option<CVec<T>>>,
     last: Value,
@@ -115,6 +148,9 @@ fn elem_json<T: Elem>(e: &T) -> Value {
 
 impl<T: Elem> World<T> {
     fn new(slots: usize) -> Self {
+        if let Some(st) = plugin_stats() {
+            *PLUGIN_BASE.lock().unwrap() = st;
+        }
         payload::reset_ids();
         Zst::reset();
         World {
@@ -146,15 +182,32 @@ impl<T: Elem> World<T> {
             "FromVec" => {
                 let cap = a["cap"].as_u64().unwrap() as usize;
                 let id0 = payload::next_id();
-                let cv = ledger::track(|| {
-                    let mut std_vec: Vec<T> = Vec::with_capacity(cap);
-                    for i in 0..n {
-                        std_vec.push(T::make(id0 + i));
+                let foreign: Option<CVec<T>> = if T::KIND == "u64" {
+                    plugin_vec_u64(n, cap, 0xABCD_0000_0000_0000 + id0 as u64).map(|v| {
+                        for i in 0..n {
+                            payload::note_created(id0 + i);
+                        }
+                        // same type: T is u64 here
+                        unsafe { std::mem::transmute_copy::<CVec<u64>, CVec<T>>(&std::mem::ManuallyDrop::new(v)) }
+                    })
+                } else {
+                    None
+                };
+                let cv = match foreign {
+                    Some(mut cv) => {
+                        interpose(&mut cv, v);
+                        cv
                     }
-                    let mut cv = CVec::from(std_vec);
-                    ledger::untracked(|| interpose(&mut cv));
-                    cv
-                });
+                    None => ledger::track(|| {
+                        let mut std_vec: Vec<T> = Vec::with_capacity(cap);
+                        for i in 0..n {
+                            std_vec.push(T::make(id0 + i));
+                        }
+                        let mut cv = CVec::from(std_vec);
+                        ledger::untracked(|| interpose(&mut cv, v));
+                        cv
+                    }),
+                };
                 if cv.capacity() < cv.len() {
                     self.notes.push("capacity < len after From<Vec>".into());
                 }
@@ -218,7 +271,7 @@ impl<T: Elem> World<T> {
                     // counter in step with the model
                     payload::set_next_id(payload::next_id() + n_src);
                 }
-                interpose(&mut c);
+                interpose(&mut c, w);
                 self.vecs[w] = Some(c);
                 self.last = ok;
             }
@@ -378,6 +431,15 @@ impl<T: Elem> World<T> {
         if DROP_CAP_MISMATCH.load(SeqCst) > 0 {
             return Some("buffer freed with a capacity different from the recorded one".into());
         }
+        if let Some((live, an)) = plugin_stats() {
+            let (l0, a0) = *PLUGIN_BASE.lock().unwrap();
+            if an != a0 {
+                return Some("the plugin's allocator was handed memory it did not allocate (or a wrong layout)".into());
+            }
+            if live != l0 {
+                return Some(format!("plugin-side leak: {} blocks of plugin memory not released", live as i64 - l0 as i64));
+            }
+        }
         match T::KIND {
             "heavy" => {
                 for (id, d) in payload::drop_table() {
@@ -516,6 +578,19 @@ fn trace<T: Elem>(out: &str, seed: u64, events: usize, slots: usize) {
 }
 
 pub fn main(args: &[String]) {
+    if let Some(p) = vkit::arg_after(args, "--plugin") {
+        unsafe {
+            let lib = libloading::Library::new(&p).unwrap_or_else(|e| {
+                eprintln!("TOOL-ERROR cannot load plugin: {}", e);
+                std::process::exit(2)
+            });
+            let info: libloading::Symbol<unsafe extern "C" fn() -> *const std::os::raw::c_char> = lib.get(b"xp_build_info").unwrap();
+            let _ = info();
+            let sym: libloading::Symbol<unsafe extern "C" fn(usize, usize, u64) -> CVec<u64>> = lib.get(b"xp_vec_u64").unwrap();
+            let addr = *sym as usize;
+            *PLUGIN_VEC.lock().unwrap() = Some((lib, addr));
+        }
+    }
     let mode = args[0].as_str();
     let path = args.get(1).cloned().unwrap_or_default();
     let elem = vkit::arg_after(args, "--elem").unwrap_or_else(|| "heavy".into());
